@@ -235,7 +235,7 @@ def _run_variant(args):
     new_src = src.replace(variant["find"], variant["replace"])
     overrides = {variant["file"]: new_src}
     for extra in variant.get("also", []):
-        s2 = open(os.path.join(REPO, extra["file"]), encoding="utf-8").read()
+        s2 = overrides.get(extra["file"]) or open(os.path.join(REPO, extra["file"]), encoding="utf-8").read()
         if s2.count(extra["find"]) != 1:
             return variant["id"], "skipped", "secondary anchor text missing"
         overrides[extra["file"]] = s2.replace(extra["find"], extra["replace"])
@@ -390,8 +390,12 @@ def run_seeds(props: list[str] | None = None, jobs: int = 16) -> dict:
             if os.path.exists(mp) and os.path.exists(pp):
                 meta = json.load(open(mp))
                 prop = meta.get("property")
-                if meta.get("superseded_by_fix"):
+                if meta.get("superseded_by_fix") and not meta.get("now_breaks"):
                     continue   # the change no longer breaks the property on the repaired tree (its demonstration passes)
+                if meta.get("now_breaks"):
+                    # after a repair of the tree the change no longer breaks the property it was written for, but (shown by a
+                    # run recorded in the meta file) still breaks another one: it must be silent on the first, detected on the second
+                    prop = meta["now_breaks"]
                 if props is None or prop in props:
                     todo.append((prop, d, pp))
     t0 = time.time()
